@@ -365,6 +365,9 @@ func (server *Server) handleArrayMessage(conn *Conn, arrayMsg *proto.Array) (*Me
 	if err != nil {
 		return nil, err
 	}
+	if firstMsg == nil {
+		return nil, ErrInvalid
+	}
 
 	// Nested array ?
 	if firstMsg.IsArray() {
